@@ -226,15 +226,29 @@ fn session(flavour: &str, chunks: Vec<Vec<u8>>, term: Term, extra: usize) -> Str
     // upper-case flavours: a request is SENT before every receive call (and after every cancelled
     // one): sending must not disturb what has been received and not yet returned
     let sends = flavour.chars().all(|c| c.is_ascii_uppercase());
-    let flavour = flavour.to_ascii_lowercase();
+    // `M` / `N`: every call is `command()` / `command_list()` (send + receive in one) on the blocking /
+    // async connection; its "closed without a response" error stands for receive's clean end
+    let via_command = flavour == "M" || flavour == "N";
+    let flavour = match flavour {
+        "M" => "s".to_string(),
+        "N" => "a".to_string(),
+        f => f.to_ascii_lowercase(),
+    };
     let flavour = flavour.as_str();
+    let unwrap_cmd = |r: Result<Response, MpdProtocolError>| -> Result<Option<Response>, MpdProtocolError> {
+        match r {
+            Ok(r) => Ok(Some(r)),
+            Err(MpdProtocolError::Io(e)) if e.to_string().contains("without a response") => Ok(None),
+            Err(e) => Err(e),
+        }
+    };
     let mut nsend = 0usize;
     if flavour == "s" {
         let mut conn = Connection::connect(&mut script).expect("connect");
         // count reads of the session only
         let reads0 = 1;
         loop {
-            if sends {
+            if sends && !via_command {
                 nsend += 1;
                 if nsend % 3 == 0 {
                     let l = mpd_protocol::command::CommandList::new(Command::new("ping")).command(Command::new("status"));
@@ -243,7 +257,17 @@ fn session(flavour: &str, chunks: Vec<Vec<u8>>, term: Term, extra: usize) -> Str
                     conn.send(Command::new("ping")).expect("send");
                 }
             }
-            let r = conn.receive();
+            let r = if via_command {
+                nsend += 1;
+                if nsend % 3 == 0 {
+                    let l = mpd_protocol::command::CommandList::new(Command::new("ping")).command(Command::new("status"));
+                    unwrap_cmd(conn.command_list(l))
+                } else {
+                    unwrap_cmd(conn.command(Command::new("ping")))
+                }
+            } else {
+                conn.receive()
+            };
             let (s, is_resp) = fmt_item(&r);
             items.push(s);
             if !is_resp {
@@ -298,6 +322,16 @@ fn session(flavour: &str, chunks: Vec<Vec<u8>>, term: Term, extra: usize) -> Str
                         return "HANG".into();
                     }
                 }
+            } else if via_command {
+                nsend += 1;
+                let r = if nsend % 3 == 0 {
+                    let l = mpd_protocol::command::CommandList::new(Command::new("ping")).command(Command::new("status"));
+                    poll_ready(conn.command_list(l))
+                } else {
+                    poll_ready(conn.command(Command::new("ping")))
+                };
+                let Some(r) = r else { return "HANG".into() };
+                unwrap_cmd(r)
             } else {
                 if sends {
                     nsend += 1;
@@ -816,7 +850,7 @@ pub fn gen(cfg: &Cfg) -> Vec<String> {
                         ops.push(format!("proto.recv {fl} {h} {seg} {term} {extra}"));
                     }
                     // the same with requests sent between the receive calls
-                    let fl = ["S", "A", "C"][(i + k) % 3];
+                    let fl = ["S", "A", "C", "M", "N"][(i + k) % 5];
                     ops.push(format!("proto.recv {fl} {h} {seg} {term} {extra}"));
                 }
                 // all two-way splits of short streams (every stream in thorough up to 4 KiB)
@@ -861,7 +895,7 @@ pub fn gen(cfg: &Cfg) -> Vec<String> {
                     let stream = enc_all(&rs);
                     let h = hex(&stream);
                     let kind = r.below(IO_KINDS.len());
-                    for fl in ["s", "a", "S", "A", "C"] {
+                    for fl in ["s", "a", "S", "A", "C", "M", "N"] {
                         ops.push(format!("proto.recv {fl} {h} {} err{kind} 1", stream.len()));
                     }
                     let seg = gen_seg(&mut r, stream.len());
